@@ -189,7 +189,7 @@ def diff_fields(got, exp, got_recs, exp_recs):
 INV_NAMES = ['wfx', 'cap', 'clk', 'svc', 'srv', 'idle', 'rows', 'blk', 'who', 'hzn', 'cnt']
 
 
-def check_trace(tr, drv, max_frames=80, mask=None, inv_mask=None):
+def check_trace(tr, drv, max_frames=80, mask=None, inv_mask=None, grid=None):
     """-> dict(frames, mismatch = first divergence that touches the mask (all fields when mask is None), other = number of
     frames that diverged only outside the mask)"""
     cfg = tr.cfg
@@ -220,6 +220,19 @@ def check_trace(tr, drv, max_frames=80, mask=None, inv_mask=None):
         v = drv.ask('m37', sx.dump([ecfg, state, hist, spawned]))
         return v[1].strip() if v[0] == 'M' else str(v)
     res['jrn_frames'] = 0
+    # C20: grid = g > 1 when every time value of the configuration is a multiple of g: the hypotheses and the conclusion of the DateSum
+    # theorems (every date / duration of every state and record is a multiple of g) on the real snapshots and records (dispatch_model 43)
+    def on_grid(state, draws, recs, frame, label):
+        gv = drv.ask('m43', sx.dump([grid, ecfg, state, draws, recs]))
+        go = parse(gv[1]) if gv[0] == 'M' else None
+        if not isinstance(go, list) or any(x != 1 for x in go):
+            res['mismatch'] = {'frame': frame, 'what': 'grid (DateSum.ds_b): a date or duration of the real snapshot / records is not a multiple of g, or a record duration is not the difference of its dates',
+                               'g': grid, 'got [draws on grid, state+records on grid]': go, 'label': label}
+            return False
+        res['grid_frames'] = res.get('grid_frames', 0) + 1
+        return True
+    if grid and not on_grid(enc_state(prev, cfg, nxt, now if isinstance(now, int) else 0), [[], [], [], []], [], 0, None):
+        return res
     b0 = invs(enc_state(prev, cfg, nxt, now if isinstance(now, int) else 0))
     res['inv_init'] = b0
     res['inv_frames'] = 0
@@ -267,6 +280,9 @@ def check_trace(tr, drv, max_frames=80, mask=None, inv_mask=None):
         if not isinstance(f['next_date'], int):
             got[0] = exp_state[0]          # every date infinite: the implementation's clock becomes inf, the model keeps it
         exp_recs = norm([enc_rec(e) for e in f['cev'] if e[0] == 'Record'])
+        # C20 (grid mode): the REAL snapshot and records first, whatever the model says: a date off the grid is a failing input of the property
+        if grid and isinstance(f['next_date'], int) and not on_grid(enc_state(f['snap'], cfg, f['next'], f['next_date']), draws_of(f['cev']), exp_recs, k + 1, f['label']):
+            return res
         d = diff_fields(got, exp_state, out[2], exp_recs)
         if any(out[3]):
             d.add(('top', 'draws_left'))
